@@ -49,7 +49,8 @@ PLAN = {
         unit("side", "TestC09Kill", 8, 120, shrinktime="30s", seed_off=800),
         unit("side", "TestC09OldFile", 150, 2000, seed_off=600),
         unit("sys", "TestC09Sys", 3, 20, replay="TestReplayC09Sys", seed_off=950, shrinktime="30s", workers={"quick": 8, "thorough": 16})]},
-    "C10": {"level": "exploration", "units": [unit("side", "TestC10", 600, 12000, replay="TestReplayC10")]},
+    "C10": {"level": "exploration", "units": [unit("side", "TestC10", 600, 12000, replay="TestReplayC10"),
+        unit("sys", "TestC10Sys", 3, 20, replay="TestReplayC10Sys", seed_off=950, shrinktime="30s", workers={"quick": 8, "thorough": 16})]},
     "C11": {"level": "exploration", "units": [
         unit("cfgh", "TestC11", 600, 10000, replay="TestReplayC11", shrinktime="30s"),
         unit("side", "TestC11Concurrent", 15, 400, seed_off=930)]},
@@ -73,7 +74,8 @@ PLAN = {
     "C15": {"level": "exploration", "units": [
         unit("disc", "TestC15", 500, 10000, replay="TestReplayC15"),
         unit("disc", "TestC15Process", 50, 400, seed_off=700, workers={"quick": 1, "thorough": 4}),
-        unit("disc", "TestC15Explore", 300, 4000, seed_off=900)]},
+        unit("disc", "TestC15Explore", 300, 4000, seed_off=900),
+        unit("disc", "TestC15SmallLabelHash", 150, 2000, seed_off=940)]},
     "C16": {"level": "exploration", "units": [
         unit("cfgh", "TestC16", 250, 6000, replay="TestReplayC16", shrinktime="30s"),
         unit("cfgh", "TestC16Process", 40, 300, seed_off=700, workers={"quick": 1, "thorough": 4}),
